@@ -325,6 +325,12 @@ func ignorable(r *vlib.Rng) Line {
 // ---------------------------------------------------------------- generators
 
 var alphabets = []string{
+	// control characters a backend validly writes as \u00XX escapes (ANSI colour codes, bell, vertical tab, DEL, C1),
+	// characters outside the BMP that are not "printable" (tag characters of the subdivision flags, private-use planes,
+	// non-characters) and text that spells out escapes itself
+	"\x1b[31m\x07\x0b\x7f\u0085\x00\x1f",
+	"\U000e0067\U000e0062\U000e007f\U000f0000\U0010fffd\U0001f3f4\ufffe\uffff",
+	"\\u003c\\u003e\\u0026 \\n \\\\ \\x1b <b>&amp;</b>",
 	"abcdefghijklmnopqrstuvwxyz ABC.,!?",
 	"héllo wörld ñ ß ø",
 	"日本語のテキスト漢字",
@@ -344,6 +350,9 @@ func genStr(r *vlib.Rng, minLen, maxLen int) string {
 			al = []rune(vlib.Pick(r, alphabets))
 		}
 		b.WriteRune(al[r.Intn(len(al))])
+		if r.Chance(1, 14) { // text that spells escapes out (source code, JSON fixtures, regular expressions)
+			b.WriteString(vlib.Pick(r, []string{"\\u003c", "\\u003e", "\\u0026", "\\n", "\\\"", "\\x1b", "&lt;", "\\\\u0041", "%5C"}))
+		}
 	}
 	return b.String()
 }
